@@ -1,5 +1,7 @@
 -- Root of the `Eliot` library: every property module (models and proofs are pulled in by them).
+import Eliot.Properties.C01
 import Eliot.Properties.C02
+import Eliot.Properties.C03
 import Eliot.Properties.C04
 import Eliot.Properties.C05
 import Eliot.Properties.C07
@@ -7,8 +9,10 @@ import Eliot.Properties.C08
 import Eliot.Properties.C09
 import Eliot.Properties.C10
 import Eliot.Properties.C11
+import Eliot.Properties.C12
 import Eliot.Properties.C13
 import Eliot.Properties.C14
 import Eliot.Properties.C15
+import Eliot.Properties.C17
 import Eliot.Properties.C18
 import Eliot.Properties.C20
